@@ -282,6 +282,34 @@ def worker(case: Dict[str, Any]) -> CaseResult:
         base = results.get("none")
         if base is None:
             return CaseResult("inconclusive", note="unplugged package unusable", stats=stats)
+        # ---- the target already holds the package of ANOTHER configuration (the unplugged one, generated a moment ago): generating one of the plugin lists over it
+        # must leave exactly what a fresh generation of that list leaves (a plugin that empties, moves or renames something cannot keep what was there before)
+        plugged = [l_ for l_ in lists[1:] if ("+".join(SHORT[p] for p in l_) or "none") in results]
+        if plugged:
+            import hashlib
+            plist = plugged[case["idx"] % len(plugged)]
+            label = "+".join(SHORT[p] for p in plist)
+            digests = {}
+            for where, history in (("over", [[], plist]), ("fresh", [plist])):
+                sub = root / ("hist_" + where)
+                sub.mkdir()
+                ok_ = True
+                for pl_ in history:
+                    cfg_h = dict(cfg_full, plugins=pl_, target_package_name="plg_hist", include_comments="stable")
+                    if case.get("eo_module") and EO in pl_:
+                        cfg_h["extract-operations"] = {"operations_module_name": case["eo_module"]}
+                    cfg_hw = write_case(sub, sdl, queries, cfg_h, extra_files=extra_files or None, section_style=case.get("section_style", "tool"))
+                    gd_h = generate_in_subprocess(sub, "client", cfg_hw)
+                    ok_ = ok_ and gd_h["ok"]
+                if ok_:
+                    digests[where] = {str(p_.relative_to(sub / "plg_hist")): hashlib.sha256(p_.read_bytes()).hexdigest() for p_ in sorted((sub / "plg_hist").rglob("*")) if p_.is_file() and "__pycache__" not in p_.parts}
+            if len(digests) == 2:
+                count("generations_over_another_configuration")
+                if digests["over"] != digests["fresh"]:
+                    differing = sorted(f for f in set(digests["over"]) | set(digests["fresh"]) if digests["over"].get(f) != digests["fresh"].get(f))
+                    violations.append(Violation(PROP, "plugins-over-existing-package", "[%s] generated over the unplugged package of the same inputs, the target differs from a fresh generation in %r "
+                                                "(only in the old target: %r)" % (label, differing[:6], sorted(set(digests["over"]) - set(digests["fresh"]))[:6]),
+                                                sorted(feats | {"plugins." + label}), replay_case, mech="c15:over-existing:" + label))
         for label, res in results.items():
             if label == "none":
                 continue
